@@ -389,7 +389,7 @@ tm_leap_day_check		(const struct tm *	tm)
 {
 	return (1 != tm->tm_mon
 		|| tm->tm_mday <= 28
-		|| is_leap_year (tm->tm_year + 1900));
+		|| is_leap_year ((unsigned int) tm->tm_year + 1900));
 }
 
 static vbi_bool
